@@ -155,6 +155,18 @@ class Store_delete_one:
 @contract("xandikos.store.Store.subdirectories", params={"self": "obj:xandikos.store.git.GitStore"},
           returns="list[str]")
 class Store_subdirectories:
+    def names_result(self, result):
+        # deterministic and read-only: sub_names(store) names the list it returns
+        return result == sub_names(self)
+
     def ensures(self, result):
         return (forall("int", lambda j: implies(0 <= j and j < len(result), result[j] in self.ghost_subdirs))
                 and forall("str", lambda n: implies(n in self.ghost_subdirs, n in result)))
+
+
+ghost("sub_names_of", ["set[str]", "str"], "list[str]")
+
+
+def sub_names(store):
+    # the list Store.subdirectories() returns: a function of the directory state (named, not defined)
+    return sub_names_of(store.ghost_subdirs, store.path)
